@@ -709,6 +709,9 @@ func genObj(t *rapid.T) Obj {
 			if rapid.IntRange(0, 3).Draw(t, "p2pkh_out") == 0 {
 				m.Out[k].Script = ref.P2PKHScript(gen.Bytes(t, 20, "pkh"))
 			}
+			if rapid.IntRange(0, 7).Draw(t, "shaped_out") == 0 {
+				m.Out[k].Script = shapedScript(t, "shaped") // template-shaped, numbers and parts disagreeing with what is there
+			}
 		}
 		switch c.Stage {
 		case "model":
